@@ -29,6 +29,13 @@ CLAIMED = {
             "Trusted: dialect vocabularies, numpy/polars null semantics, pandas/numpy name lists (sa/facts.py). "
             "Not decided: numerical meaning of the other methods, NaN/inf corners.",
             "DESIGN.md 6/C05"),
+    "C13": ("table comparison against Python's operator/special-method and precedence tables; grammar constant loaded with lark as data (rule graph, operator sets per level); AST shape rules on the tree walker (ast + lark)",
+            "op_remap/factor_remap equal Python's operator→special-method table; token→Term method→Expression op round-trips and "
+            "reflected methods swap operands; the grammar's fall-through chain test…atom and the operator set of each level equal "
+            "Python's (incl. right-associative ** binding tighter than unary minus); the walker folds left, keeps and/or n-ary, "
+            "turns chained comparisons into conjunctions and applies unary operators to the right operand.",
+            "Trusted: Python language reference tables (DESIGN.md 3.1). Not decided: value equality with Python on operands.",
+            "DESIGN.md 6/C13"),
     "C16": ("join-type vocabulary tables per back end; paired-field rewrite rule; coalesce-direction and ON-pairing by template/AST shape with polarity from `left_is_first`; third-party null-key contracts (ast)",
             "Each accepted join type maps to the same join in Pandas, Polars and SQL (deviations are listed findings); a rewrite "
             "that swaps a join node's sources swaps on_a/on_b; shared non-key columns take the left value first in all three "
